@@ -1,4 +1,6 @@
 import EudoxiaModel.Model.Sim
+import EudoxiaModel.Model.Sweep
+import EudoxiaModel.Proofs.Store
 /-! # C06 — completion, latency and returned statistics match an independent recount -/
 namespace Eudoxia.C06
 open Eudoxia.Sim Extracted
@@ -64,5 +66,85 @@ theorem empty_run : statsOf (loopC []) =
   decide
 
 example : p99? [10, 20, 30, 40, 50] = some (4960, 100) ∧ mean? [1, 2, 6] = some (9, 3) := by decide
+
+
+/-! ### counted as completed exactly once, in the first swept tick in which all its operators are completed -/
+open Eudoxia Eudoxia.Sweep OpState
+
+/-- the bookkeeping is consistent: no pipeline is outstanding twice, none is both outstanding and finished, none is finished twice -/
+structure TrackOK (tr : Track) : Prop where
+  nd : (tr.outstanding.map (·.1) ++ tr.finished.map (·.1)).Nodup
+
+theorem trackOK_init : TrackOK {} := ⟨by simp⟩
+
+theorem arrive_ok (tr : Track) (pid t : Nat) (ops : List Nat) (h : TrackOK tr)
+    (hnew : pid ∉ tr.outstanding.map (·.1) ∧ pid ∉ tr.finished.map (·.1)) : TrackOK (arrive tr pid t ops) := by
+  constructor
+  have := h.nd
+  simp only [arrive, List.map_append, List.map_cons, List.map_nil, List.append_assoc]
+  rw [List.nodup_append] at this ⊢
+  obtain ⟨n1, n2, n3⟩ := this
+  refine ⟨n1, ?_, ?_⟩
+  · simp only [List.singleton_append, List.nodup_cons]
+    exact ⟨hnew.2, n2⟩
+  · intro a ha b hb
+    rcases List.mem_append.mp hb with hb | hb
+    · simp at hb; subst hb; intro e; subst e; exact hnew.1 ha
+    · exact n3 a ha b hb
+
+/-- **exactly once.**  The sweep keeps the bookkeeping consistent: whatever it records as finished leaves the outstanding set in the same step,
+so no pipeline can ever be recorded twice. -/
+theorem sweep_ok (s : Store) (t : Nat) (hasRes : Bool) (tr : Track) (h : TrackOK tr) : TrackOK (sweep s t hasRes tr) := by
+  unfold sweep
+  split
+  · exact h
+  · constructor
+    simp only [List.map_append, List.map_map]
+    have hperm : (List.map (fun p => p.1) (tr.outstanding.filter (fun p => !allCompleted s p.2.2)) ++
+        (List.map (fun p => p.1) tr.finished ++ List.map ((fun p => p.1) ∘ fun p => (p.1, t, t - p.2.1)) (tr.outstanding.filter (fun p => allCompleted s p.2.2)))).Perm
+        (List.map (fun p => p.1) tr.outstanding ++ List.map (fun p => p.1) tr.finished) := by
+      have hsplit : (tr.outstanding.filter (fun p => !allCompleted s p.2.2) ++ tr.outstanding.filter (fun p => allCompleted s p.2.2)).Perm tr.outstanding := by
+        have := List.filter_append_perm (fun (p : Nat × Nat × List Nat) => !allCompleted s p.2.2) tr.outstanding
+        simpa using this
+      have hm := hsplit.map (fun p => p.1)
+      simp only [List.map_append] at hm
+      have e : List.map ((fun p => p.1) ∘ fun (p : Nat × Nat × List Nat) => (p.1, t, t - p.2.1)) (tr.outstanding.filter (fun p => allCompleted s p.2.2)) =
+          List.map (fun p => p.1) (tr.outstanding.filter (fun p => allCompleted s p.2.2)) := by
+        apply List.map_congr_left; intro x _; rfl
+      rw [e]
+      refine (List.Perm.append_left _ List.perm_append_comm).trans ?_
+      rw [← List.append_assoc]
+      exact List.Perm.append_right _ hm
+    exact hperm.nodup_iff.mpr h.nd
+
+/-- **in the tick its last operator completes.**  In a swept tick (one in which the executor reported a result) an outstanding pipeline is recorded as
+finished if and only if all its operators are COMPLETED at that moment, with the latency `t − arrival tick`; otherwise it stays outstanding. -/
+theorem sweep_records_exactly_the_complete_ones (s : Store) (t : Nat) (tr : Track) (p : Nat × Nat × List Nat) (hp : p ∈ tr.outstanding) :
+    (allCompleted s p.2.2 = true → (p.1, t, t - p.2.1) ∈ (sweep s t true tr).finished ∧ p ∉ (sweep s t true tr).outstanding) ∧
+    (allCompleted s p.2.2 = false → p ∈ (sweep s t true tr).outstanding) := by
+  simp only [sweep, Bool.not_true, Bool.false_eq_true, ↓reduceIte]
+  constructor
+  · intro hc
+    refine ⟨List.mem_append_right _ (List.mem_map.mpr ⟨p, List.mem_filter.mpr ⟨hp, hc⟩, rfl⟩), ?_⟩
+    intro hx
+    have := (List.mem_filter.mp hx).2
+    simp [hc] at this
+  · intro hc
+    exact List.mem_filter.mpr ⟨hp, by simp [hc]⟩
+
+/-- nothing is recorded in a tick without results, and a finished pipeline stays finished with the same finish tick -/
+theorem sweep_monotone (s : Store) (t : Nat) (hasRes : Bool) (tr : Track) : ∀ x ∈ tr.finished, x ∈ (sweep s t hasRes tr).finished := by
+  intro x hx
+  unfold sweep
+  split
+  · exact hx
+  · exact List.mem_append_left _ hx
+
+/-- **not later.**  Completion is final (C02), so a pipeline all of whose operators are completed stays so through any further accepted transitions:
+it is recorded by the next sweep that runs at all. -/
+theorem complete_stays_complete {s s' : Store} (h : Steps s s') (ops : List Nat) (hc : allCompleted s ops = true) : allCompleted s' ops = true := by
+  simp only [allCompleted, List.all_eq_true, beq_iff_eq] at hc ⊢
+  intro o ho
+  exact completed_final h o (hc o ho)
 
 end Eudoxia.C06
